@@ -2,7 +2,7 @@
      <flags> <N> <eps_num> <eps_den> <mini> <maxi> <dim_max> | <N*N integer distances> | <order p0 p1 ..> | <simplices of the C++ complex  v,v,..:num/den ...>
    flags: 'I' = also measure the interleaving bound, 'A' = eps is not exactly representable (the given rational is the exact value
    of the double): report whether some branch decision is sensitive to a 2^-40 relative perturbation of eps.
-   Output:  ok=<0|1> sens=<0|1> sub=<0|1> valid=<0|1> inter=<1|0|-|fail> | M <model complex> | B <bars ...>
+   Output:  greedy=<0|1> ok=<0|1> sens=<0|1> sub=<0|1> valid=<0|1> inter=<1|1x|0|-|fail> (1x: within the bound and the two diagrams differ) | M <model complex> | B <bars ...>
    Everything decisive (model, checks, bars, matching certificate check) is extracted Coq; this file parses, prints and
    SEARCHES the matching (Kuhn's augmenting paths) that the extracted check_matching then validates. *)
 let qmake n d = { qnum = n; qden = (match d with Zpos p -> p | _ -> XH) }
@@ -82,6 +82,7 @@ let () =
         let ord_known = not (String.contains parts.(2) '?') in
         let pi = if ord_known then List.map (fun w -> nat_of_int (int_of_string w)) (words parts.(2)) else [] in
         let kc = cplx_of_string parts.(3) in
+        let greedy = ord_known && greedyb d nn [] pi in
         let ok = ord_known && order_ok d nn pi mini in
         let model e = sparse_complex d e nn pi mini maxi (z_of_int dim) in
         let km = model eps in
@@ -98,19 +99,22 @@ let () =
           if String.contains flags 'I' && dim >= 1 then begin
             let c = qdiv (qi 1) (qminus (qi 1) eps) in
             let kr = rips_complex d nn (nat_of_int dim) in
-            let res = ref "1" and info = Buffer.create 256 in
+            let res = ref "1" and info = Buffer.create 256 and same = ref true in
             List.iter (fun p ->
                 match bars (z_of_int p) kc, bars (z_of_int p) kr with
                 | Some bs, Some br ->
                   let a = bars_below (nat_of_int dim) bs and b = bars_below (nat_of_int dim) br in
                   Buffer.add_string info (Printf.sprintf " | B p=%d sparse: %s ; rips: %s" p (string_of_bars a) (string_of_bars b));
+                  (match find_matching (qi 1) a b with
+                   | Some m when check_matching (qi 1) a b m -> ()
+                   | _ -> same := false);
                   (match find_matching c a b with
                    | Some m when check_matching c a b m -> ()
                    | _ -> res := "0")
                 | _ -> res := "fail") [2; 3];
-            (!res, Buffer.contents info)
+            ((if !res = "1" && not !same then "1x" else !res), Buffer.contents info)
           end else ("-", "") in
-        emit (Printf.sprintf "ok=%s sens=%s sub=%s valid=%s inter=%s | M %s%s" (bstr ok) (bstr sens) (bstr sub) (bstr valid) inter
+        emit (Printf.sprintf "greedy=%s ok=%s sens=%s sub=%s valid=%s inter=%s | M %s%s" (bstr greedy) (bstr ok) (bstr sens) (bstr sub) (bstr valid) inter
                 (canon_cplx km) binfo)
       with e -> emit ("ERR " ^ Printexc.to_string e));
   flush_out ()
